@@ -56,6 +56,7 @@ var (
 	reDepth    = regexp.MustCompile(`The depth of the complete state graph search is (\d+)`)
 	reInv      = regexp.MustCompile(`Error: Invariant (\S+) is violated`)
 	reActProp  = regexp.MustCompile(`Error: Action property (\S+) is violated`)
+	reTemporal = regexp.MustCompile(`Error: Temporal property (\S+) was violated`)
 	reSimGen   = regexp.MustCompile(`The number of states generated: (\d+)`)
 	tlcCounter int64
 )
@@ -200,8 +201,11 @@ func parseTLC(r *TLCResult) {
 			r.Violated = m[1]
 		} else if strings.Contains(ln, "Error: Deadlock reached") {
 			r.Violated = "deadlock"
-		} else if strings.Contains(ln, "Error: Temporal properties were violated") {
+		} else if strings.Contains(ln, "Error: Temporal properties were violated") || reTemporal.MatchString(ln) {
 			r.Violated = "temporal"
+			if m := reTemporal.FindStringSubmatch(ln); m != nil {
+				r.Violated = "temporal:" + m[1]
+			}
 		} else if strings.HasPrefix(ln, "Error: ") && !strings.Contains(ln, "The behavior up to this point") &&
 			!strings.Contains(ln, "The following behavior constitutes a counter-example") {
 			end := i + 6
